@@ -7,7 +7,7 @@ from vlib import gen as G
 
 ID = "C15"
 # look-alikes of prelude names (vlib/defs.py HOSTILE) this check's derives are immune to on the unchanged tree
-HOSTILE_OK = ['Default', 'From', 'Into', 'Result', 'Option', 'Some', 'Ok', 'Iterator', 'Clone', 'AsRef', 'Send', 'PhantomData', 'IterGet', 'm_matches', 'm_assert', 'm_fmt', 'c_binders', 'no_implicit_prelude']
+HOSTILE_OK = ['Default', 'From', 'Into', 'Result', 'Option', 'Some', 'Ok', 'Iterator', 'Clone', 'AsRef', 'Send', 'PhantomData', 'IterGet', 'm_matches', 'm_assert', 'm_fmt', 'c_binders', 'no_implicit_prelude', 'ByValue']
 PROP_FILE = "Props/C15.v"
 RULE = ("enums with 1-8 variants x kinds; 0-6 properties per variant spread over 1-3 props(..) groups in one or several #[strum] "
         "attributes; keys shared across variants and across the three types, keyword-like keys (type, fn, match, r#raw), keys that "
